@@ -21,6 +21,8 @@ var c15Lits = []string{
 	"null", "false", "true", "0", "1", "2", "42", "(-1)", "1.5", "1.0", "(-0)", "0.1", "1e3", "1E-2", "3.0e10",
 	"100000000000000000000", "12345678901234567890123", "1e1000", "(-1e1000)", "1.7976931348623157e308", "5e-324",
 	"nan", "infinite", "(-infinite)", "[nan,infinite]",
+	// computed doubles at the two thresholds of the number format (1e-6 and 1e21), where the command's writer and the library's must agree
+	"(1e21*1)", "(-1e21*1)", "[pow(10;21)]", "(1e21*1.0000001)", "(999999999999999900000*1.0)", "(1e20*1)", "(2e21*1)", "(1e-6*1)", "(1e-7*1)", "(0.000001*1)", "(0.0000009999999999999999*1)", "(-1e-6*1)", "{\"k\":[(1e21*1),(1e-6*1)]}", "(pow(2;63))", "(pow(2;53)+1)",
 	`""`, `"a"`, `"abc"`, `"a b"`, `"a\nb"`, `"tab\there"`, `"q\"uote"`, `"back\\slash"`, `"nul\u0000mid"`, `"\u0000"`, `"\u0000\u0000end"`,
 	`"é"`, `"日本語"`, `"😀"`, `"\ud83d\ude00"`, `"\ud800"`, `"  "`, `"<&>'"`, `"\u007f"`, `"\u001f\u0001"`, `"\r\n"`, `"ends with newline\n"`, `"/"`, `"\b\f"`,
 	`("/w==" | @base64d)`, `"[1,2]"`, `"null"`, `" "`,
